@@ -370,6 +370,13 @@ class SpecEval:
                 raise SpecError('visited(%s, ..): no such map range executed before this point' % n)
             kx = self.ev(args[1])
             return SV(self.heap.get(rk)[kx.t], 'bool')
+        if name == 'atexit':
+            # atexit(k, x): value of the loop-carried variable x of loop k at the loop head, i.e. when the loop is left
+            key = (args[0][1], args[1][1])
+            v = getattr(self.V, 'loop_phi_vals', {}).get(key)
+            if v is None:
+                raise SpecError('atexit(%s, %s): no such loop-carried variable' % key)
+            return v
         if name == 'next':
             if self.latch is None:
                 raise SpecError('next() outside a step clause')
